@@ -40,6 +40,19 @@ def real_of_pyfloat(c: float):
     return z3.RealVal(fr.numerator) / z3.RealVal(fr.denominator) if fr.denominator != 1 else z3.RealVal(fr.numerator)
 
 
+def _mentions_fl_or_div(t, _d=0):
+    """Syntactic test: the term is built with a rounded value (FL) or a division -- its
+    integrality cannot be read off, and the IsInt side fact only slows the solver down."""
+    if _d > 12:
+        return True
+    if z3.is_app(t):
+        k = t.decl().kind()
+        if k in (z3.Z3_OP_DIV, z3.Z3_OP_IDIV) or t.decl().name() == FL.name():
+            return True
+        return any(_mentions_fl_or_div(c, _d + 1) for c in t.children())
+    return False
+
+
 def rnd(it, r):
     """Round the exact real r to binary64 (real mode): fresh f within the error bound."""
     ex = it.ex
@@ -57,7 +70,10 @@ def rnd(it, r):
     ex.add_fact(z3.And(f - r <= EPS * ar + TINY, r - f <= EPS * ar + TINY))
     ex.add_fact(z3.And(z3.Implies(r >= 0, f >= 0), z3.Implies(r <= 0, f <= 0)))
     # integers up to 2^53 are representable: rounding is the identity on them
-    ex.add_fact(z3.Implies(z3.And(z3.IsInt(r), ar <= 2 ** 53), f == r))
+    if z3.is_app_of(r, z3.Z3_OP_TO_REAL):
+        ex.add_fact(z3.Implies(ar <= 2 ** 53, f == r))
+    elif not _mentions_fl_or_div(r):
+        ex.add_fact(z3.Implies(z3.And(z3.IsInt(r), ar <= 2 ** 53), f == r))
     ex.check(ar < FMAX, "fp-no-overflow", site="float op")
     return SFloat(f, exact=r)
 
